@@ -320,6 +320,10 @@ func checkDoTrafficRouting(c *Ctx, fn *ssa.Function) {
 
 // checkVerifiedMeansUnchanged: in an EnsureRoutes implementation no path after a route write returns true.
 func checkVerifiedMeansUnchanged(c *Ctx, fn *ssa.Function, exempt func(*ssa.Function) bool) {
+	checkVerifiedMeansUnchangedAs(c, "R3.3", fn, exempt)
+}
+
+func checkVerifiedMeansUnchangedAs(c *Ctx, rule string, fn *ssa.Function, exempt func(*ssa.Function) bool) {
 	p := c.Prog
 	name := FuncName(fn)
 	n := 0
@@ -336,7 +340,7 @@ func checkVerifiedMeansUnchanged(c *Ctx, fn *ssa.Function, exempt func(*ssa.Func
 				bad = "after the write a return at " + p.Pos(ret.Pos()) + " yields " + got
 			}
 		}
-		c.Ob("R3.3", name+"#after("+label+")", pos.Pos(), bad == "", "no 'verified' after a write in the same pass", bad)
+		c.Ob(rule, name+"#after("+label+")", pos.Pos(), bad == "", "no 'verified' after a write in the same pass", bad)
 	}
 	for _, w := range writeSitesIn(fn, exempt) {
 		w := w
@@ -368,6 +372,6 @@ func checkVerifiedMeansUnchanged(c *Ctx, fn *ssa.Function, exempt func(*ssa.Func
 		}
 	}
 	if n == 0 {
-		c.Ob("R3.3", name+"#writes", fn.Pos(), false, "route writes of this provider", "anchor not found: no write site / reporting helper recognised in this EnsureRoutes implementation")
+		c.Ob(rule, name+"#writes", fn.Pos(), false, "route writes of this provider", "anchor not found: no write site / reporting helper recognised in this EnsureRoutes implementation")
 	}
 }
